@@ -7,12 +7,15 @@ mod checks;
 mod eng_codec;
 mod eng_hpack;
 mod eng_pair;
+mod eng_raw;
 mod oracles;
+mod oracles2;
 mod mockio;
 mod refmodel;
 mod runner;
 mod sim;
 mod sim_pair;
+mod sim_raw;
 mod tapx;
 mod tape;
 mod util;
